@@ -5,7 +5,7 @@ from lib import *
 AO = r"may::sync::atomic_option::AtomicOption::"
 ATOM = r"(std|core)::sync::atomic::Atomic::"
 MQ_MPSC = r"may_queue::mpsc::Queue::"
-SEGQ = r"crossbeam_queue::seg_queue::SegQueue::"
+SEGQ = r"crossbeam(::crossbeam_queue|_queue)(::seg_queue)?::SegQueue::"
 
 def A(method): return ATOM + method
 def ao(method, on=None, **kw): return Call(AO + method, on=on, **kw)
@@ -188,3 +188,152 @@ def global_handoff(ctx):
                "queue index and wakeup target are the same value (%s)" % (fmt_origin(widx) if widx else "?") if ok else
                "the worker that is woken (%s) is not the one whose global queue received the coroutine (%s)" %
                (fmt_origin(widx) if widx else "?", fmt_origin(qidx) if qidx else "?"), f.where(wpt))
+
+# ------------------------------------------------------------------------------------------------
+# slot helpers (R-SLOT)
+
+def slot_waiter(ctx, fid, store, recheck, cond_pred, selfwake, inst, why, cond_label="re-check sees the condition"):
+    """after `store` every path to the exit passes `recheck`; the edge on which the re-check sees
+    the waker's condition must lead to `selfwake` (take + resume) before the exit"""
+    ok = ctx.must_follow(fid, store, recheck, inst + "/store-then-recheck",
+                         why + ": the waiter registers, then re-reads the waker's condition (a waker that published before "
+                         "the registration found an empty slot and will not come back)", rule="R-SLOT")
+    if selfwake is not None:
+        ok &= ctx.must_follow(fid, None, selfwake, inst + "/recheck-true-selfwake",
+                              why + ": when the re-check sees the condition the waiter takes itself back out of the slot",
+                              rule="R-SLOT", edge=cond_pred, edge_label="edge `%s`" % cond_label)
+    return ok
+
+def slot_waker(ctx, fid, publish, take, inst, why):
+    return ctx.order(fid, publish, take, inst + "/publish-then-take",
+                     why + ": the waker publishes its condition before it takes the waiter out of the slot", rule="R-SLOT")
+
+# ------------------------------------------------------------------------------------------------
+# the forwarding handshake (C05, C09, C10, C11, C12)
+
+SB = "may::sync::blocking::SyncBlocker"
+IS_UNPARKED = Call(re.escape(SB) + "::is_unparked", transitive=False)
+SET_RELEASE = Call(re.escape(SB) + "::set_release", transitive=False)
+TAKE_RELEASE = Call(re.escape(SB) + "::take_release", transitive=False)
+SB_PARK = Call(re.escape(SB) + "::park", transitive=False)
+SB_UNPARK = Call(re.escape(SB) + "::unpark")
+TRIGGER = Call(r"may::cancel::trigger_cancel_panic", transitive=False)
+
+def handshake_waiter(ctx, fid, forward, inst, what, err_edge, exits_kind="ret+trigger", rule="R-SIB"):
+    """waiter side: on the arm where park returned Err(..): before leaving (trigger_cancel_panic /
+    return / looping back to park) the waiter must run
+        if is_unparked() { forward } else { set_release(); if is_unparked() && take_release() { forward } }"""
+    f = ctx.fn(rule, fid, inst)
+    if f is None: return False
+    an = ctx.an
+    forward = Ev("call", fn=forward.fn.pattern, on=forward.on, label=forward.label, transitive=False)
+    iu = an.sites(f, IS_UNPARKED, "must"); sr = an.sites(f, SET_RELEASE, "must"); tr = an.sites(f, TAKE_RELEASE, "must")
+    fw = an.sites(f, forward, "must"); pk = an.sites(f, SB_PARK, "may"); tg = an.sites(f, TRIGGER, "may")
+    if not (iu and sr and tr and fw and pk):
+        ctx.missing(rule, fid, inst, "handshake anchors missing in %s: is_unparked=%d set_release=%d take_release=%d forward(%s)=%d park=%d"
+                    % (fid, len(iu), len(sr), len(tr), forward.label, len(fw), len(pk)))
+        return False
+    def exits(g):
+        ex = set()
+        if "ret" in exits_kind: ex |= set(g.ret_points())
+        if "trigger" in exits_kind: ex |= tg
+        if "park" in exits_kind: ex |= pk
+        return ex
+    ok = True
+    # H1: from the Err edge of park every path to an exit passes is_unparked
+    ok &= ctx.must_follow(fid, None, IS_UNPARKED, inst + "/H1-check-unparked",
+                          "%s: a waiter whose park failed (cancel/timeout) checks whether it was already handed the %s" % (fid, what),
+                          rule=rule, edge=err_edge, edge_label="edge `park()` is Err", exits=exits)
+    # H2: on an is_unparked()==true edge: forward before leaving (first check), unless the waiter keeps the resource
+    # H3: on the first is_unparked()==false edge: set_release then is_unparked again
+    # identify first check = is_unparked sites not reachable from a set_release site
+    after_sr = an.reach(f, [q for s in sr for q in an.after(f, s)], blocked=pk)
+    first = set(s for s in iu if s not in after_sr)
+    second = set(s for s in iu if s in after_sr)
+    if not first or not second:
+        ctx.ob(rule, fid, inst + "/H3-register-then-recheck", False,
+               "%s: the cancel/timeout arm no longer has the shape check / set_release / re-check (first=%d, re-check=%d): a %s handed over "
+               "between the check and the registration is lost" % (fid, len(first), len(second), what), f.where(sorted(iu)[0]))
+        return False
+    def edge_of(sites, truth):
+        bbs = set(s.bb for s in sites)
+        def p(a):
+            return a.kind == "call" and a.truth is truth and a.name == SB + "::is_unparked" and a.site in bbs
+        return p
+    ok &= ctx.must_follow(fid, None, forward, inst + "/H2-unparked-forwards",
+                          "%s: a waiter that was already unparked when its park failed passes the %s on" % (fid, what), rule=rule,
+                          edge=edge_of(first, True), edge_label="edge first `is_unparked()` is true", exits=exits)
+    ok &= ctx.must_follow(fid, None, SET_RELEASE, inst + "/H3-register",
+                          "%s: a waiter that was not yet unparked registers the release request" % fid, rule=rule,
+                          edge=edge_of(first, False), edge_label="edge first `is_unparked()` is false", exits=exits)
+    ok &= ctx.must_follow(fid, SET_RELEASE, IS_UNPARKED, inst + "/H3-recheck",
+                          "%s: after registering the release request the waiter re-checks is_unparked (Dekker)" % fid, rule=rule, exits=exits)
+    # H4: take_release true -> forward
+    ok &= ctx.must_follow(fid, None, forward, inst + "/H4-took-release-forwards",
+                          "%s: a waiter that wins take_release() passes the %s on itself" % (fid, what), rule=rule,
+                          edge=call_true(re.escape(SB) + "::take_release"), edge_label="edge `take_release()` is true", exits=exits)
+    # H5: forward only behind (first is_unparked true) or (take_release true): never when not unparked
+    ok &= ctx.guarded(fid, forward, any_of(edge_of(first, True), call_true(re.escape(SB) + "::take_release")), inst + "/H5-forward-only-if-handed",
+                      "%s: the %s is passed on only when it was actually handed to this waiter" % (fid, what), rule=rule,
+                      pred_label="edge `is_unparked()`/`take_release()` is true", target_mode="must")
+    # take_release only behind the re-check true edge
+    ok &= ctx.guarded(fid, TAKE_RELEASE, edge_of(second, True), inst + "/H5b-take-only-if-unparked",
+                      "%s: the waiter withdraws its release request only when it saw the unpark" % fid, rule=rule,
+                      pred_label="edge second `is_unparked()` is true", target_mode="must")
+    # H6: never forward twice without parking again
+    r = an.reach(f, [q for s in fw for q in an.after(f, s)], blocked=pk)
+    dbl = [s for s in fw if s in r]
+    ctx.ob(rule, fid, inst + "/H6-forward-once", not dbl,
+           "%s: the %s is passed on at most once per failed park" % (fid, what) if not dbl else
+           "%s: the %s can be passed on twice after one failed park (duplicated permit/hand-off)" % (fid, what), f.where(sorted(fw)[0]))
+    ok &= not dbl
+    # H7: trigger_cancel_panic only after the handshake
+    if tg:
+        r0 = an.reach(f, [Point(0, 0)], blocked=iu)
+        bad = [t for t in tg if t in r0]
+        ctx.ob(rule, fid, inst + "/H7-panic-after-handshake", not bad,
+               "%s: trigger_cancel_panic is reached only after the handshake" % fid if not bad else
+               "%s: trigger_cancel_panic can be reached without the is_unparked handshake: a %s handed to the cancelled waiter is lost" % (fid, what),
+               f.where(sorted(tg)[0]))
+        ok &= not bad
+    return ok
+
+def handshake_waker(ctx, fid, forward, inst, what, rule="R-SIB", forward_required=True):
+    """waker side: unpark the waiter, then take_release(); on true pass the thing on"""
+    f0 = ctx.fn(rule, fid, inst)
+    if f0 is None: return False
+    bodies = [g for g in [f0] + ctx.prog.closures_of(f0) if ctx.an.sites(g, TAKE_RELEASE, "must")]
+    if len(bodies) != 1:
+        ctx.missing(rule, fid, inst, "expected exactly one body in %s (or its closures) calling take_release, found %d" % (fid, len(bodies)))
+        return False
+    fid = bodies[0].id
+    ok = ctx.order(fid, SB_UNPARK, TAKE_RELEASE, inst + "/unpark-then-take-release",
+                   "%s: the waker marks the waiter unparked before it looks for a release request (Dekker)" % fid, rule=rule)
+    if forward_required:
+        ok &= ctx.must_follow(fid, None, forward, inst + "/release-forwards",
+                              "%s: a waker that finds a release request passes the %s on" % (fid, what), rule=rule,
+                              edge=call_true(re.escape(SB) + "::take_release"), edge_label="edge `take_release()` is true")
+    return ok
+
+def syncblocker_rules(ctx, rule="R-SIB"):
+    ctx.order(SB + "::unpark", Call(r"may::sync::blocking::Blocker::unpark"), atomic("store", SB + ".unparked"), "unpark/wake-then-flag",
+              "SyncBlocker::unpark wakes, then publishes `unparked` (a waiter that sees the flag has its token)", rule=rule)
+    ctx.mo_floor(SB + ".unparked", ("store",), "REL", "unparked-store", "handshake flag")
+    ctx.mo_floor(SB + ".unparked", ("load",), "ACQ", "unparked-load", "handshake flag")
+    ctx.mo_floor(SB + ".release", ("store",), "REL", "release-store", "handshake flag")
+    ctx.mo_floor(SB + ".release", ("swap",), "ACQ", "release-swap", "handshake flag")
+    f = ctx.fn(rule, SB + "::take_release", "swap-false")
+    if f is not None:
+        ok = False; site = None
+        for pt in ctx.an.sites(f, atomic("swap", SB + ".release"), "must"):
+            site = pt; ok = const_int(f, f.node(pt)["args"][1]) == 0
+        ctx.ob(rule, SB + "::take_release", "swap-false", ok, "take_release consumes the request (swap(false)): exactly one side wins" if ok else
+               "take_release no longer clears the flag atomically: both sides can forward", f.where(site))
+    # SyncBlocker ignores cancel itself (callers handle it): Blocker::new(true)
+    f = ctx.fn(rule, SB + "::current", "ignore-cancel")
+    if f is not None:
+        ok = False; site = None
+        for pt in ctx.an.sites(f, Call(r"may::sync::blocking::Blocker::new"), "must"):
+            site = pt; ok = const_int(f, f.node(pt)["args"][0]) == 1
+        ctx.ob(rule, SB + "::current", "ignore-cancel", ok, "SyncBlocker parks with cancel ignored, so Canceled is reported to the handshake instead of panicking inside park" if ok else
+               "SyncBlocker::current no longer creates a cancel-ignoring Blocker: a cancel would panic inside park and skip the forwarding handshake", f.where(site))
